@@ -83,6 +83,10 @@ def label_to_event(label):
         return dict(op="VrbMode", l=0, k="", a=a[0], b=0)
     if name == "CloseW":
         return dict(op="CloseW", l=a[0], k="", a=a[1], b=0)
+    if name == "BulkKids":
+        return dict(op="BulkKids", l=a[0], k="", a=0, b=0)
+    if name == "Burn":
+        return dict(op="Burn", l=0, k="", a=0, b=0)
     if name in ("LogNest", "EachNew"):
         return dict(op=name, l=a[0], k="", a=a[1], b=0)
     if name == "MkHandler":
@@ -118,6 +122,9 @@ def random_behaviours(c, rng, count, depth, max_loggers):
     for _ in range(count):
         n = 1
         nh = 0
+        # (the two long-running-process actions are slow to execute: one batch of children in every second
+        # behaviour at most, 70 000 loggers derived elsewhere in every sixth)
+        nbulk, burnt = (0 if rng.random() < 0.5 else 9), rng.random() > 0.17
         beh = []
         for _ in range(depth):
             acts = [a for a in c["acts"]]
@@ -205,6 +212,14 @@ def random_behaviours(c, rng, count, depth, max_loggers):
                 # (every tenth record is bigger than any buffer or chunk size the library might use: 100 KiB)
                 beh.append(dict(op="LogF", l=l, k="big" if rng.random() < 0.1 else "", a=rng.choice(sorted(c["log_sevs"])),
                                 b=rng.randint(1, len(c["fail_sets"]))))
+            elif op == "BulkKids":
+                if nbulk < 1:
+                    nbulk += 1
+                    beh.append(dict(op="BulkKids", l=l, k="", a=0, b=0))
+            elif op == "Burn":
+                if not burnt:
+                    burnt = True
+                    beh.append(dict(op="Burn", l=0, k="", a=0, b=0))
             elif op == "LogNest":
                 beh.append(dict(op="LogNest", l=l, k="", a=rng.randint(1, n), b=0))
             elif op == "EachNew":
@@ -232,7 +247,7 @@ def mc_only(ctx, c, invariants, properties, name="core-mc-only", timeout=1500):
                      ["INIT Init", "NEXT Next", "CHECK_DEADLOCK FALSE", "INVARIANTS " + " ".join(invariants)] +
                      (["PROPERTIES " + " ".join(properties)] if properties else []),
                      plain=dict(MaxLoggers=c["max_loggers"], InitLevel=c["init_level"], MaxList=c.get("max_list", 2),
-                                MaxArgs=c.get("max_args", 0), MaxSaved=c.get("max_saved", 2), MaxHandlers=c.get("max_handlers", 1), FileBase=41))
+                                MaxArgs=c.get("max_args", 0), MaxSaved=c.get("max_saved", 2), MaxHandlers=c.get("max_handlers", 1), FileBase=41, MaxBulk=c.get("max_bulk", 1), BulkN=1100))
     return ctx.model_check("MCB", "MCB.cfg", files={"MCB.tla": mc, "MCB.cfg": cfg}, name=name, timeout=timeout)
 
 
@@ -245,7 +260,7 @@ def run_core(ctx, c, invariants, properties, obs, rand_count, rand_depth, rand_l
                       "INVARIANTS " + " ".join(invariants)] +
                      (["PROPERTIES " + " ".join(properties)] if properties else []),
                      plain=dict(MaxLoggers=c["max_loggers"], InitLevel=c["init_level"], MaxList=c.get("max_list", 2),
-                                MaxArgs=c.get("max_args", 0), MaxSaved=c.get("max_saved", 2), MaxHandlers=c.get("max_handlers", 1), FileBase=41))
+                                MaxArgs=c.get("max_args", 0), MaxSaved=c.get("max_saved", 2), MaxHandlers=c.get("max_handlers", 1), FileBase=41, MaxBulk=c.get("max_bulk", 1), BulkN=1100))
     dot = os.path.join(ctx.scratch, "graph" + tag)
     r = ctx.model_check("MC", "MC.cfg", files={"MC.tla": mc, "MC.cfg": cfg},
                         extra=["-dump", "dot,actionlabels", dot] if dump else [], name="core-mc" + tag)
@@ -408,7 +423,7 @@ def validate_core_trace(ctx, c, trace_path, max_loggers, name="core-trace", part
     tc["TraceFile"] = "trace.ndjson"
     mct, cfg = gen_mc("MCT", "LoggCoreTrace", tc,
                       ["SPECIFICATION TSpec", "INVARIANTS Done TOneFormat TTreeOK", "CHECK_DEADLOCK FALSE"],
-                      plain=dict(MaxLoggers=max(max_loggers, c["max_loggers"]) + 64, InitLevel=c["init_level"], MaxList=1000, MaxArgs=0, MaxSaved=100000, MaxHandlers=100000, FileBase=41))
+                      plain=dict(MaxLoggers=max(max_loggers, c["max_loggers"]) + 64, InitLevel=c["init_level"], MaxList=1000, MaxArgs=0, MaxSaved=100000, MaxHandlers=100000, FileBase=41, MaxBulk=100000, BulkN=1100))
     with open(trace_path) as fh:
         lines = fh.readlines()
     resets = [i for i, ln in enumerate(lines) if ln.startswith('{"op":"Reset"')]
